@@ -20,6 +20,10 @@ STD_VERSIONS = ["2.7", "3.3", "3.6", "3.7", "3.8", "3.9", "3.10", "3.11", "3.12"
 CODE_SRCS = ["x = 1\n", "def f(a):\n    return a + 1\n", "class A:\n    b = (1, 'two', 3.0)\n"]
 
 
+# module-level containers that legitimately grow with use (none so far)
+GLOBALS_MAY_CHANGE = set()
+
+
 def file_pool():
     files = []
     for rel in pd.corpus_files():
@@ -54,6 +58,8 @@ def op_strategy(files, generated=()):
         st.tuples(st.sampled_from(STD_VERSIONS), st.sampled_from(["opname", "stack_effect", "hasconst"]), st.integers(0, 255),
                   st.integers(0, 3)).map(lambda p: {"k": "std", "v": p[0], "q": [p[1], p[2]] + ([p[3]] if p[1] == "stack_effect" else [])}),
         f.map(lambda p: {"k": "bc", "f": p}),
+        f.map(lambda p: {"k": "stdbc", "f": p}),
+        f.map(lambda p: {"k": "showcode", "f": p}),
         small.map(lambda v: {"k": "mdumps", "value": v}),
         st.tuples(small, st.sampled_from([0, 1])).map(lambda p: {"k": "mloads", "value": p[0], "ver": p[1]}),
         st.tuples(st.sampled_from(CODE_SRCS), st.sampled_from([0, 1, 2])).map(lambda p: {"k": "mloads_code", "src": p[0], "ver": p[1]}),
@@ -165,6 +171,8 @@ class C18:
                 res.reject = "malformed-case"
                 return
             self.step(ctx, host, op, w, res, i, ops)
+            if i == len(ops) - 1:
+                self.check_globals(ctx, host, ops, w, res)
             kinds.add(op["k"])
             versions.add(op.get("v") or (op.get("f") or "").split("/")[0])
         versions.discard("")
@@ -191,6 +199,20 @@ class C18:
         if tabs != ftabs:
             changed = sorted(k for k in set(tabs) | set(ftabs) if tabs.get(k) != ftabs.get(k)) if isinstance(tabs, dict) and isinstance(ftabs, dict) else ["?"]
             res.fail("C18|tables-changed|after:%s" % op["k"], "step %d %s altered opcode tables %s" % (i, self.short(op), changed[:6]))
+
+    def check_globals(self, ctx, host, ops, w, res):
+        """at the end of a history: no call altered module-level tables that later calls read - every module-level
+        container of every loaded xdis module, against a fresh process that did only the last operation"""
+        i = len(ops) - 1
+        op = ops[-1]
+        g = w.call("x_do", do={"k": "globals"})["result"]
+        fg = self.fresh(ctx, host, {"k": "globals_after", "op": op})
+        if isinstance(g, dict) and isinstance(fg, dict) and "raised" not in g and "raised" not in fg:
+            for mod in sorted(set(g) & set(fg)):
+                for attr in sorted(set(g[mod]) & set(fg[mod])):
+                    if g[mod][attr] != fg[mod][attr] and (mod, attr) not in GLOBALS_MAY_CHANGE:
+                        res.fail("C18|module-table-changed|%s.%s" % (mod, attr), "after %d operations ending in %s: %s.%s differs from its value in a "
+                                 "process that did only that last operation (history: %s)" % (i + 1, self.short(op), mod, attr, sorted(set(o["k"] for o in ops[:i]))[:8]))
 
     @staticmethod
     def blame(prefix):
@@ -236,6 +258,11 @@ class C18:
 
             def teardown(self):
                 if self.w is not None:
+                    if self.ops and not self.dead:
+                        try:
+                            prop.check_globals(ctx, self.host, self.ops, self.w, self.res)
+                        except Exception:
+                            pass
                     self.w.stop()
                 if self.ops and not self.dead:
                     versions, kinds = set(), set()
